@@ -36,6 +36,16 @@ CHECKS = {
         ref="§6 C18",
         note="Trusts kernel+VM, the Diag model (one constructor per output site), fd-level capture in the harness, the translator's output-site scanner (every print/log/panic-with-argument statement in the package, with static argument types). No axioms.",
         technique="Coq proof (non-interference by construction + grammar of templates) + differential correspondence on captured output + output-site census regenerated from source + leak-search oracle"),
+    "C14": dict(
+        text="PARTIAL. Theorems: for threads that perform no shared write, EVERY interleaving at single-access granularity leaves the shared state unchanged, contains no conflicting accesses (race freedom) and gives every call the result it has when run alone — instantiated for any number of goroutines each running any sequence of Generate/Entropy/Alphabet/SuccessProbability/Size calls on shared recipes, lists and separator functions of the API model (the results to which C03/C05/C06 apply); and, by computation over the write footprints, call edges with argument binding, closures, go statements and package variables that the translator extracts from the CURRENT source, no exported entry point, separator closure or initialiser reaches a store to memory another goroutine can reach (receivers by value; buildCharacterList writes only through the address of a private copy).",
+        ref="§6 C14",
+        note="Partial: the theorem is about footprints, not machine executions. Trusts kernel+VM, the translator's effect analysis (conservative: anything not understood is 'unknown' = shared), the summary table for golang-set/math/big/fmt/crypto/rand, and — for the compiled code — the Go race detector, which samples schedules on every run (8-64 goroutines over shared values incl. the package-level presets, every result validated). The Go memory model and scheduler are not modelled. No axioms.",
+        technique="Coq proof (invariant over all interleavings of write-free threads) + footprint closure computed in Coq over translator-extracted effects + race-detector stress with result validation"),
+    "C16": dict(
+        text="Theorems by computation over the data the translator reads from the CURRENT source against the documented literals: the five class strings, flag values and the flag table (and the model uses these very constants); NewCharRecipe / NewWLRecipe assignments; MaxTrials = 200, MaxFailRate = 1/10^9; each of the seven presets as declared is the model's preset, returns exactly the documented values, is infallible under the default budget — hence (C04/C06 theorems) every value has probability exactly 1/count — with counts 10, 100, 7, 49, 6, 16 and entropy log2(count); AgileWords and AgileSyllables equal the lines of testdata/*.txt, are strictly sorted (hence duplicate-free), lower-case a-z, non-empty, 18325 and 10129 entries.",
+        ref="§6 C16",
+        note="Trusts kernel+VM and the translator spg2coq (go/parser + go/types constant folding). The behaviour of the built package is tied separately: every preset over its complete cell, classes through Alphabet(), defaults, budget and SHA-256 of the exported lists against testdata, read through the public API. Float entropies compared with 2 ulp. No axioms.",
+        technique="Coq proof by computation (vm_compute) on data regenerated from the source on every run + differential correspondence over complete preset cells + direct oracle on the built package"),
     "C07": dict(
         text="Theorem count_code_correct for every alphabet, every family of required sets (arbitrary overlaps, any number) and every length: the repaired counting recursion returns exactly the number of distinct satisfying strings; the integer behind Entropy() is that count on both code paths; never negative; zero iff unsatisfiable. The float tail (log2, float32) is compared with a 2-ulp tolerance against the exact integer exported by the verif hook.",
         ref="§6 C07, §8 F1",
